@@ -1,6 +1,8 @@
 pub mod baton;
 pub mod comps;
+pub mod dispatchsim;
 pub mod engine;
+pub mod joinsim;
 pub mod ledger;
 pub mod plans;
 pub mod rng;
@@ -18,7 +20,7 @@ pub mod wscript;
 pub mod wstorage;
 
 pub fn all_engines() -> Vec<Box<dyn engine::Engine>> {
-    vec![Box::new(wengine::WorldSim)]
+    vec![Box::new(wengine::WorldSim), Box::new(joinsim::JoinSim), Box::new(dispatchsim::DispatchSim)]
 }
 
 fn usage() -> i32 {
